@@ -221,7 +221,7 @@ def _work(args):
             continue
         must = cls == "unique" and propagation_determined(exprs, shapes, kw)
         for name in ("solve_axes", "solve_shapes", "matches"):
-            o = harness.outcome(lambda: getattr(einx, name)(desc, *tensors, **kw), 8)
+            o = harness.outcome(lambda: getattr(einx, name)(desc, *tensors, **kw), 5)
             if o[0] == "timeout":
                 out.append(("timeout", dict(d, entry=name), None))
                 continue
